@@ -533,6 +533,7 @@ def rdataNames : RData → List Name
   | .sig _ _ _ _ _ _ _ n _ => [n]
   | .nsec n _ => [n]
   | .tsig n _ _ _ _ _ _ => [n]
+  | .naptr _ _ _ _ _ n => [n]
   | _ => []
 
 def recordNames (r : Record) : List Name := r.name :: rdataNames r.rdata
@@ -682,10 +683,22 @@ theorem readNsec3Head_sat : Sat readNsec3Head 1 0 0 (fun _ => True) := by
         (Nat.le_refl _) (by omega) (by omega) (fun _ h => h))
   sat_done h
 
+theorem readTag_sat : ∀ (n : Nat) (acc : Bytes), Sat (readTag n acc) 0 0 0 (fun _ => True) := by
+  intro n
+  induction n with
+  | zero => intro acc; rw [readTag]; exact Sat.pure _ trivial
+  | succ n ih =>
+    intro acc
+    rw [readTag]
+    simp only [bind_eq]
+    have h := Sat.bind (K := 0) Sat.pop fun c _ =>
+      Sat.ite (c := 0) (m := 0) (isAlnum c = true) (fun _ => ih (acc ++ [c])) (fun _ => Sat.fail)
+    sat_done h
+
 /-- `DNSSECRData::read`: reached only for `is_dnssec()` types other than TSIG, all of which have an
 arm — the `panic!("not a dnssec RecordType")` arm is dead. -/
-theorem readDnssec_sat (opq : Nat → Rd Bytes) (hq : OpqOK opq) (t : Nat) (hd : isDnssec t = true)
-    (ht : t ≠ 250) : Sat (readDnssec opq t) 1 33024 0 (RP t) := by
+theorem readDnssec_sat (t : Nat) (hd : isDnssec t = true)
+    (ht : t ≠ 250) : Sat (readDnssec t) 1 33024 0 (RP t) := by
   unfold readDnssec
   simp only [bind_eq, pure_eq]
   have hds : Sat (Rd.readU16.bind fun tag => Rd.pop.bind fun alg => Rd.pop.bind fun dt =>
@@ -735,7 +748,18 @@ theorem readDnssec_sat (opq : Nat → Rd Bytes) (hq : OpqOK opq) (t : Nat) (hd :
       (Sat.pure (P := RP t) (RData.nsec3param x.1 x.2.1 x.2.2) (RP_nil rfl trivial)).liftK
     sat_done h
   refine Sat.ite _ (fun _ => ?_) (fun h25 => ?_)
-  · have h := Sat.bind (hq t) fun v _ => (Sat.pure (P := RP t) (RData.opaque t v) (RP_nil rfl rfl)).liftK
+  · have h := Sat.bind (K := 1) Sat.readU16.liftK fun flags _ =>
+      Sat.ite (c := 0) (m := 0) ((flags / 8192) % 2 ≠ 0 ∨ (flags / 1024) % 4 ≠ 0 ∨ (flags / 16) % 16 ≠ 0)
+        (fun _ => Sat.fail.liftK) (fun _ =>
+      Sat.ite (r1 := Rd.panic "KeyTrust::from:All other bit fields should have been cleared")
+        ((flags / 16384) % 4 > 3) (fun h => absurd h (by omega)) (fun _ =>
+      Sat.ite (r1 := Rd.panic "KeyUsage::from:All other bit fields should have been cleared")
+        ((flags / 256) % 4 > 3) (fun h => absurd h (by omega)) (fun _ =>
+      Sat.ite ((flags / 4096) % 2 = 1) (fun _ => Sat.fail.liftK) (fun _ =>
+        (Sat.bind Sat.pop.liftK fun proto _ => Sat.bind Sat.pop.liftK fun alg _ =>
+          Sat.bind Sat.readVecToEnd.liftK fun k _ =>
+          (Sat.pure (P := RP t) (RData.key flags proto alg k) (RP_nil rfl trivial)).liftK).weaken
+          (Nat.le_refl _) (by omega) (by omega) (fun _ h => h)))))
     sat_done h
   · exfalso
     simp only [isDnssec, List.contains_cons, List.contains_nil, Bool.or_false, Bool.or_eq_true, beq_iff_eq] at hd
@@ -831,8 +855,25 @@ theorem readRDataBody_sat (opq : Nat → Rd Bytes) (hq : OpqOK opq) (t : Nat) :
   · have h := Sat.bind (K := 1) Sat.readVecToEnd.liftK fun d _ =>
       (Sat.pure (P := RP t) (RData.openpgpkey d) (RP_nil rfl trivial)).liftK
     sat_done h
+  refine Sat.ite _ (fun _ => ?_) (fun _ => ?_)
+  · have h := Sat.bind (K := 1) Sat.pop.liftK fun flags _ => Sat.bind Sat.pop.liftK fun tagLen _ =>
+      Sat.ite (c := 0) (m := 0) (tagLen = 0 ∨ tagLen > 15) (fun _ => Sat.fail.liftK) (fun _ =>
+        (Sat.bind (readTag_sat tagLen []).liftK fun tag _ => Sat.bind Sat.readVecToEnd.liftK fun v _ =>
+          (Sat.pure (P := RP t) (RData.caa (decide (flags / 128 = 1)) (flags % 128) tag v) (RP_nil rfl trivial)).liftK).weaken
+          (Nat.le_refl _) (by omega) (by omega) (fun _ h => h))
+    sat_done h
+  refine Sat.ite _ (fun _ => ?_) (fun _ => ?_)
+  · have h := Sat.bind (K := 1) Sat.readU16.liftK fun order _ => Sat.bind Sat.readU16.liftK fun pref _ =>
+      Sat.bind Sat.readCharacterData.liftK fun flags _ =>
+      Sat.ite (c := 16512) (m := 0) ((!flags.all isAlnum) = true) (fun _ => Sat.fail.liftK.weaken (Nat.le_refl _) (by omega) (by omega) (fun _ h => h)) (fun _ =>
+        (Sat.bind Sat.readCharacterData.liftK fun services _ => Sat.bind Sat.readCharacterData.liftK fun regexp _ =>
+          Sat.bind Sat.name.liftK fun n hn =>
+          (Sat.pure (P := RP t) (RData.naptr order pref flags services regexp n)
+            ⟨by intro x hx; simp [rdataNames] at hx; exact hx ▸ hn, trivial⟩).liftK).weaken
+          (Nat.le_refl _) (by omega) (by omega) (fun _ h => h))
+    sat_done h
   refine Sat.ite _ (fun hd => ?_) (fun _ => ?_)
-  · exact readDnssec_sat opq hq t hd hn250
+  · exact readDnssec_sat t hd hn250
   refine Sat.ite _ (fun _ => ?_) (fun _ => ?_)
   · have h := Sat.bind (hq t) fun v _ => (Sat.pure (P := RP t) (RData.opaque t v) (RP_nil rfl rfl)).liftK
     sat_done h
@@ -1167,12 +1208,8 @@ theorem readRData_no_panic (opq : Nat → Rd Bytes) (hq : OpqOK opq) (t : Nat) (
 `readRData_no_panic` is unconditional there -/
 theorem readRData_modelled_indep (opq opq' : Nat → Rd Bytes) (t : Nat) (ht : unmodelled.contains t = false) :
     readRData opq t = readRData opq' t := by
-  have h25 : t ≠ 25 := by
-    intro h; subst h; simp [unmodelled] at ht
-  have hd : readDnssec opq t = readDnssec opq' t := by
-    unfold readDnssec; simp only [h25, if_false]
   unfold readRData readRDataBody
-  simp only [ht, hd]
+  simp only [ht]
   rfl
 
 theorem opqFail_ok : OpqOK (fun _ => Rd.fail) := fun _ =>
